@@ -14,6 +14,7 @@ use std::panic::{catch_unwind, AssertUnwindSafe};
 
 mod asyncr;
 mod asyncs;
+mod script;
 
 fn class_of(n: u64) -> TagClass {
     match n {
